@@ -956,6 +956,17 @@ def ruleset_wiring(ctx, tag, settings):
                           "argument %d (%s) feeds the constructor parameter %s" % (pos, at, prm["name"]),
                           "argument %d of make_unique<Ruleset> is '%s' but the constructor's parameter at that position is '%s': two settings of the same type are "
                           "transposed (the compiler cannot see it)" % (pos, at, prm["name"]))
+                # a yes/no setting reaches the constructor AS CONFIGURED: the argument's provenance is a member of one of the function's
+                # parameters (the parsed ruleset), not a local that is adjusted on the way (a flag "cleaned up" when it looks meaningless)
+                if prm["type"].replace("const ", "").strip() == "bool":
+                    Xw = Expander(P, f)
+                    prov = Xw(a)
+                    n += 1
+                    ctx.check(bool(re.fullmatch(r"(param:\w+|this)((\.|->)\w+)+", prov)), "%s:wiring:%s:arg%d:%s:as-configured" % (tag, short(f), pos, prm["name"]),
+                              "provenance (Expander)", f.loc(i), "the flag is the configured value (%s)" % prov,
+                              "argument %d of make_unique<Ruleset> (%s, the '%s' setting) is not the configured value as it was parsed: its provenance is '%s' - "
+                              "a local that is re-assigned, or an expression over several settings - so for some configurations the ruleset is built with a "
+                              "different flag than the one written in the configuration" % (pos, at, prm["name"], prov))
     ctx.counters[tag + "_wiring_hops"] = n
     ctx.floor(tag + "_wiring_hops", 2 * len(settings), "wiring hops examined for " + ", ".join(settings))
 
